@@ -14,7 +14,10 @@ RULE = ("every PDAG(n) (per pair: none, ->, <-, --; cyclic directed layers inclu
         "patterns of all DAG(4) quick / DAG(5) thorough; seeded random PDAGs n<=8 (free kinds; DAG with a random subset of "
         "non-v-structure edges undirected; DAG with arbitrary edges undirected); consequences on every DAG(n) n<=4 quick / "
         "n<=5 thorough and random DAGs n<=9; repeat streams (pdag_to_dag / pdag_to_cpdag / dag_to_cpdag called before on the SAME "
-        "object, for cons cases with edges added/removed in between) and pre-existing 'order'/'label' edge attributes. Oracle (all orientations of the undirected edges) when |U|<=12. "
+        "object, for cons cases with edges added/removed in between) and pre-existing 'order'/'label' edge attributes; returned objects edited in place between calls; "
+        "P.copy() judged after a warm-up on P; mixed UNORDERABLE labels (ints and strs) on all PDAG(n<=3), 25% of the shaped and 20% "
+        "of the random PDAGs (exception class must stay ValueError); 300 (quick) shaped 5-6 node PDAGs (2-3 parents into an "
+        "undirected clique of 2-3); quick also runs the consequences on all DAG(5) with >=9 edges and 700 sampled DAG(5). Oracle (all orientations of the undirected edges) when |U|<=12. "
         "distinct by canonical graph; non-trivial = PDAG has an undirected and a directed edge")
 EXHAUSTIVE = {"quick": "all PDAG(n) n<=3; patterns and consequences of all DAG(n) n<=4",
               "thorough": "all 4096 PDAG(4) and smaller; patterns and consequences of all DAG(n) n<=5"}
@@ -45,6 +48,54 @@ def coq_eval(vals):
     p = subprocess.run([BIN], input="\n".join(sxmod.dumps(v) for v in vals) + "\n", stdout=subprocess.PIPE,
                        text=True, env=dict(os.environ, OCAMLRUNPARAM="s=4M"))
     return [sxmod.loads(l) for l in p.stdout.split("\n") if l]
+
+
+def to_cpdag_mixed(g, case):
+    """CPDAG whose labels are mutually UNORDERABLE (ints and strs mixed): nothing in the property allows sorting labels"""
+    from pywhy_graphs import CPDAG
+    f = lambda v: v if v % 2 == 0 else "s%d" % v  # noqa: E731
+    table = {f(v): v for v in g["V"]}
+    P = CPDAG()
+    for v in gr.ordered(case, g["V"], "V"):
+        P.add_node(f(v))
+    es = [(k, a, b) for k in "DU" for a, b in g[k]]
+    for k, a, b in gr.ordered(case, es, "E"):
+        P.add_edge(f(a), f(b), {"D": "directed", "U": "undirected"}[k])
+    return P, f, (lambda x: table[x])
+
+
+def shaped_pdag(rng, n):
+    """the shapes the sink test branches on: a sink-able node with several parents (adjacent or not) and several
+    undirected neighbours forming a clique, parents pointing into all of the clique; plus noise"""
+    nodes = list(range(n))
+    rng.shuffle(nodes)
+    k = rng.randint(2, 3)
+    m = rng.randint(2, min(3, n - k))
+    parents, clique, rest = nodes[:k], nodes[k:k + m], nodes[k + m:]
+    D, U = [], []
+    for p in parents:
+        for c in clique:
+            if rng.random() < 0.92:
+                D.append([p, c])
+    for i in range(len(clique)):
+        for j in range(i + 1, len(clique)):
+            if rng.random() < 0.92:
+                U.append([clique[i], clique[j]])
+    for i in range(len(parents)):
+        for j in range(i + 1, len(parents)):
+            r = rng.random()
+            if r < 0.2:
+                D.append([parents[i], parents[j]])
+            elif r < 0.3:
+                U.append([parents[i], parents[j]])
+    for v in rest:
+        for w in rng.sample(parents + clique, rng.randint(0, 2)):
+            r = rng.random()
+            if r < 0.5:
+                D.append([w, v])
+            else:
+                U.append([w, v])
+    return gr.G(range(n), D=D, U=U)
 
 
 def pattern_of(g):
@@ -102,6 +153,11 @@ def gen_cases(tier, rng):
             c["repeat"] = True
         if rng.random() < 0.3:
             c["attrs"] = rng.randint(0, 10 ** 6)
+        r2 = rng.random()
+        if r2 < 0.2:
+            c["mixed"] = True
+        elif r2 < 0.35:
+            c["copy"] = True
         yield c
     for i in range(nr // 2):
         n = rng.randint(5, 9)
@@ -115,6 +171,25 @@ def gen_cases(tier, rng):
         yield c
     for g in gr.enum_dag(4):
         yield dict(c04.repeat_variant(rng, g), kind="cons4-repeat", mode="cons")
+    # mixed unorderable labels: the exception class for "no extension" must stay ValueError
+    for n in (2, 3):
+        for g in gr.enum_pdag(n, acyclic=False):
+            yield {"kind": "pdag%d-mixed" % n, "mode": "pdag", "g": g, "mixed": True}
+    # size: 5-6 node PDAGs of the shapes the test branches on; dense DAG(5) (all with >= 9 edges) + a seeded sample
+    for i in range(300 if tier == "quick" else 2000):
+        c = {"kind": "shaped", "mode": "pdag", "g": shaped_pdag(rng, rng.randint(5, 6))}
+        if i % 4 == 0:
+            c["mixed"] = True
+        if i % 5 == 0:
+            c["repeat"] = True
+        if i % 7 == 0:
+            c["copy"] = True
+        yield c
+    if tier == "quick":
+        d5 = list(gr.enum_dag(5))
+        dense = [g for g in d5 if len(g["D"]) >= 9]
+        for g in dense + rng.sample(d5, 700):
+            yield {"kind": "cons5-sample", "mode": "cons", "g": g}
     for g in gr.enum_pdag(3, acyclic=False):
         yield {"kind": "pdag3-repeat", "mode": "pdag", "g": g, "repeat": True, "attrs": rng.randint(0, 10 ** 6)}
 
@@ -144,7 +219,7 @@ def run_impl(case):
     g = case["g"]
     sink = io.StringIO()
     if case["mode"] == "pdag":
-        P, lab, inv = gr.to_cpdag(g, case)
+        P, lab, inv = to_cpdag_mixed(g, case) if case.get("mixed") else gr.to_cpdag(g, case)
         if case.get("attrs") is not None:      # pre-existing edge attributes named like dag_to_cpdag's own
             for lg in P.get_graphs().values():
                 c04.decorate(lg, case["attrs"])
@@ -153,9 +228,15 @@ def run_impl(case):
             with contextlib.redirect_stdout(sink):
                 for f in (pdag_to_dag, pdag_to_cpdag):
                     try:
-                        f(P)
+                        R0 = f(P)
+                        # the caller edits what it got back; that must not leak into later calls
+                        if R0.number_of_nodes():
+                            R0.remove_node(next(iter(R0.nodes)))
                     except ValueError:
                         pass
+        if case.get("copy"):                   # a copy made after (or without) a warm-up is judged instead
+            P0, P = P, P.copy()
+            before = gr.snapshot(P)
         try:
             with contextlib.redirect_stdout(sink):
                 R = pdag_to_dag(P)
@@ -217,7 +298,8 @@ def nontrivial(case, model):
 
 
 def key(case):
-    return (case["mode"], gr.canon(case["g"]), bool(case.get("repeat")), case.get("attrs"),
+    return (case["mode"], gr.canon(case["g"]), bool(case.get("repeat")), case.get("attrs"), bool(case.get("mixed")),
+            bool(case.get("copy")),
             tuple(map(tuple, case.get("drop", []))), tuple(map(tuple, case.get("extra", []))))
 
 
